@@ -106,10 +106,16 @@ def simulated_write(fmt, records, wp, simfile, append=False):
             import chython.files.mdl.write as MW
             import chython.files.MRVrw as MV
 
-            def fake_open(file, mode='r', *a, **k):
+            def fake_open(file, mode='r', buffering=-1, encoding=None, errors=None, newline=None, **k):
+                nonlocal tw
                 if 'a' not in mode:
                     del simfile.data[:]
                     simfile.durable = 0
+                if encoding is not None or errors is not None:
+                    # the library's own choice of encoding / error handler is part of what is under test
+                    tw.detach()
+                    tw = io.TextIOWrapper(bw, encoding=encoding or 'utf-8', errors=errors, newline='\n',
+                                          write_through=bool(wp.get('write_through')))
                 return tw
             MW.open = MV.open = fake_open
             try:
